@@ -260,7 +260,15 @@ func cmdCheck(args []string) int {
 			native := "not-attempted"
 			if r.h.Native && !*noNative {
 				_, bad := nativeRun(r.h, []map[string]interface{}{v.Inputs}, r.ts.Bounds, true)
-				if len(bad) > 0 {
+				if len(bad) > 0 && nativeInfraFailure(bad[0]) {
+					// the native run could not be made at all: that is not a reproduction
+					if r.h.Concurrent {
+						native = "not attempted (" + firstLine(bad[0]) + "); the in-engine trace is the replay artefact"
+					} else {
+						native = "not-reproduced"
+						rep["native_replay_error"] = bad[0]
+					}
+				} else if len(bad) > 0 {
 					native = "reproduced: " + strings.Join(bad, "; ")
 				} else if r.h.Concurrent {
 					native = "not reproduced under the native default schedule (schedule-dependent; the in-engine trace is the replay artefact)"
@@ -441,6 +449,10 @@ func nativeRun(h HarnessSpec, pins []map[string]interface{}, bounds map[string]i
 	return okN, bad
 }
 
+func nativeInfraFailure(msg string) bool {
+	return strings.HasPrefix(msg, "native build failed") || strings.HasPrefix(msg, "mktemp:")
+}
+
 func nativeCleanup() {
 	if nativeScratch != "" {
 		os.RemoveAll(nativeScratch)
@@ -534,6 +546,10 @@ func cmdReplay(args []string) int {
 	h := HarnessSpec{Pkg: rep.Harness[:i], Entry: rep.Harness[i+1:], Native: true}
 	_, bad := nativeRun(h, []map[string]interface{}{rep.Inputs}, rep.Bounds, true)
 	nativeCleanup()
+	if len(bad) > 0 && nativeInfraFailure(bad[0]) {
+		fmt.Printf("native replay could not run: %s\n", bad[0])
+		return 2
+	}
 	if len(bad) > 0 {
 		fmt.Printf("reproduced natively: %s (class %s)\n", strings.Join(bad, "; "), rep.Class)
 		return 1
